@@ -310,7 +310,7 @@ def axang2quat(axis: np.ndarray, angle: Union[int, float], rad: bool = True) -> 
         return np.array([1.0, 0.0, 0.0, 0.0])
     if len(axis) != 3:
         raise ValueError()
-    axis /= np.linalg.norm(axis)
+    axis = axis / np.linalg.norm(axis)
     qw = np.cos(angle/2.0) if rad else cosd(angle/2.0)
     s = np.sin(angle/2.0) if rad else sind(angle/2.0)
     q = np.array([qw] + list(s*axis))
